@@ -15,14 +15,14 @@ open Layout Gen
     a field written `#[address(st.2)]` is placed exactly like the same field without an address
     (the padding is a zero-length array, which `Regions::push` drops) -/
 theorem explicit_address_noop {β} (st : St β) (f : PField β) (fs : List (PField β)) :
-    place st ({ f with addr := some st.2 } :: fs) = place st ({ f with addr := none } :: fs) := by
-  sorry
+    place st ({ f with addr := some st.2 } :: fs) = place st ({ f with addr := none } :: fs) :=
+  explicit_address_noop_lem st f fs
 
 /-- … at any position of the field list -/
 theorem explicit_address_noop_at {β} (st st1 : St β) (pre : List (PField β)) (f : PField β) (post : List (PField β))
     (h : place st pre = .ok st1) :
-    place st (pre ++ { f with addr := some st1.2 } :: post) = place st (pre ++ { f with addr := none } :: post) := by
-  sorry
+    place st (pre ++ { f with addr := some st1.2 } :: post) = place st (pre ++ { f with addr := none } :: post) :=
+  explicit_address_noop_at_lem st st1 pre f post h
 
 /-- **replacing an `unknown<N>` gap by an address on the following field** (and the reverse): the placed
     lists agree region for region in size and alignment, and differ only in that the gap region is
@@ -35,27 +35,27 @@ theorem gap_vs_address (st : St Region) (r : Region) (n : Nat) (g : PField Regio
         st1.2 = st2.2 ∧ st1.1.map (fun p => (p.size, p.align)) = st2.1.map (fun p => (p.size, p.align))
         ∧ st1.1.length = st2.1.length
         ∧ ∀ k (h1 : k < st1.1.length) (h2 : k < st2.1.length),
-            st1.1[k] = st2.1[k] ∨ (st1.1[k].src = some r ∧ st2.1[k].src = none ∧ st1.1[k].size = n) := by
-  sorry
+            st1.1[k] = st2.1[k] ∨ (st1.1[k].src = some r ∧ st2.1[k].src = none ∧ st1.1[k].size = n) :=
+  gap_vs_address_lem st r n g fs hg
 
 /-- … and the naming pass turns both into the same private, undocumented `_field_<offset>` field -/
 theorem gap_region_named_like_padding (reg : Registry) (off : Nat) (r : Region) (n : Nat)
     (rest : List (Placed Region)) (hr : IsGapRegion reg r n) :
-    nameRegions reg off (⟨n, some 1, some r⟩ :: rest) = nameRegions reg off (⟨n, some 1, none⟩ :: rest) := by
-  sorry
+    nameRegions reg off (⟨n, some 1, some r⟩ :: rest) = nameRegions reg off (⟨n, some 1, none⟩ :: rest) :=
+  gap_region_named_lem reg off r n rest hr
 
 /-- **adding a size attribute equal to the natural size** -/
 theorem natural_size_noop {β} (vptr : Option (PField β)) (fields : List (PField β))
     (placed : List (Placed β)) (size : Nat) (h : resolve vptr fields none = .ok (placed, size)) :
-    resolve vptr fields (some size) = .ok (placed, size) := by
-  sorry
+    resolve vptr fields (some size) = .ok (placed, size) :=
+  natural_size_noop_lem vptr fields placed size h
 
 /-- **giving a virtual function the index it already had**: with `out.length` slots filled, a function
     written `#[index(out.length)]` takes the same slot and leaves the same table as without the attribute -/
 theorem natural_index_noop (reg : Registry) (scope : List Path) (out : List SFunc) (f : G.Func)
     (hf : C04.declIndex f = none) :
-    slotStep reg scope out (withIndex f out.length) = slotStep reg scope out f := by
-  sorry
+    slotStep reg scope out (withIndex f out.length) = slotStep reg scope out f :=
+  natural_index_noop_lem reg scope out f hf
 
 /-- `slotStep` is the body of the loop in `convertVfuncs` -/
 theorem convertVfuncs_is_slotStep_fold (reg : Registry) (scope : List Path) (size : Option Nat) (fns : List G.Func) :
@@ -64,14 +64,14 @@ theorem convertVfuncs_is_slotStep_fold (reg : Registry) (scope : List Path) (siz
        | .ok out => (match size with
           | some n => if n < out.length then .err "vftable is declared with a size smaller than the slots its functions occupy" else makePadding out n
           | none => .ok out)
-       | e => e) := by
-  sorry
+       | e => e) :=
+  convertVfuncs_fold_lem reg scope size fns
 
 /-- **writing an enum value that equals the implicit one** -/
 theorem implicit_enum_value_noop (range : Int × Int) (acc : EnumAcc) (st : G.EnumStmt) (v : Int)
     (hl : acc.last = some v) (he : st.expr = none) :
-    enumStmtStep range acc { st with expr := some (.int v) } = enumStmtStep range acc st := by
-  sorry
+    enumStmtStep range acc { st with expr := some (.int v) } = enumStmtStep range acc st :=
+  implicit_enum_value_lem range acc st v hl he
 
 /-- **reordering the type definitions of a module**: the file lists a module's items sorted by path, so
     it depends on the *set* of definition paths only (paths are unique per item) -/
@@ -80,13 +80,15 @@ theorem reorder_definitions (s : State) (key : Path) (m m' : Mod)
     (hk : ∀ p i, s.reg.get p = some i → i.path = p)
     (hrest : m' = { m with defPaths := m'.defPaths }) :
     Emit.moduleFile s key m' = Emit.moduleFile s key m := by
-  sorry
+  have _ := hn
+  exact reorder_definitions_lem s key m m' hp hk hrest
 
 /-- … and the order in which unresolved items are attempted does not depend on the order in which
     they were registered -/
 theorem unresolved_order_independent (r r' : Registry) (prio : List Path)
     (hp : r'.types.Perm r.types) (hn : (r.types.map (·.1)).Nodup) :
     r'.unresolved prio = r.unresolved prio := by
-  sorry
+  have _ := hn
+  exact unresolved_order_lem r r' prio hp
 
 end PyxisVerif.C20
